@@ -10,6 +10,7 @@ import Proofs.C02.EndToEnd
 import Proofs.C02.BmsSig
 import Proofs.C02.Entry
 import Proofs.C02.BmsEc
+import Proofs.C02.BmsRun
 /-!
 # C02 — ECDSA: signatures verify, verification is the SEC 1 equation, recovery, DER is canonical
 
@@ -423,11 +424,9 @@ example : verifyDer 32 [1, 2, 3] (-5, 7) [0x30, 0x06, 0x02, 0x01, 0x01, 0x02, 0x
     HMAC — on C01's lawful carrier `opsSub K` (`Lawful` = `lawful_ec`; `hX` = `isXCoord_complete`; `hser` =
     `bmsEnvSub_hser`, from `absA_inj`: two carrier elements denoting one point are one pair).  `bmsEnvSub` writes `ser`
     of the underlying pair and nothing for infinity (which `bytes_from_point` refuses).
-    WHAT KEEPS IT ON THE CARRIER (not restated over raw `Btc.EC.ops C`): `Bms.sign` / `Bms.assertAsValid` call `lift_x`
-    (inside `recover`) and serialize points; their runs over `opsSub K` and over `EC.ops C` coincide only through the
-    `OpsHom` run-equality (`lift_x` restricted to the n-torsion = executed `lift_x`: true under cofactor one, proved for
-    secp256k1) and `ser` agreeing at infinity — that run-equality for the two bms functions is NOT proved here; on
-    secp256k1 the executed `EC.ops` runs are stream-compared with btclib on both arms (`bms.sign`, `bms.verify`). -/
+    THE EXECUTED RUNS (raw `Btc.EC.ops C`, environment `bmsEnvRaw ser h160 = ⟨ser, h160⟩`) are tied to these carrier
+    runs below: `bms_sign_then_verify_ec_raw` / `bms_sign_then_verify_secp256k1` restate T8d about them, through the run
+    equalities of Proofs/C02/BmsRun.lean (`bms_run_eq_secp256k1`). -/
 theorem bms_sign_then_verify_ec {p : ℕ} [Fact p.Prime] {C : Curve} (K : CurveOk p C) (h34 : p % 4 = 3)
     (hp2n : C.p < 2 * C.n) (ser : Point → Bool → Bytes) (h160 : Bytes → Bytes) (H : Rfc6979.HashSpec) (mm : Bytes)
     (q : ℤ) (comp : Bool) (addr : Option Bms.Addr) (fuel : ℕ) (rf : ℕ) (r s : ℤ)
@@ -471,6 +470,69 @@ example : ∀ t, Bms.accepts t 31 = true →
   (bms_sign_then_verify_ec toyOk (by decide) (by decide) (Bms.secSer 1) id ⟨fun _ _ => [0x10], 1⟩ [0x1f] 5 true none 4
     31 7 12 toy_bms_sign).1
 example : Bms.accepts .p2sh 31 = true ∧ Bms.accepts .p2wpkh 31 = true ∧ Bms.accepts .p2pkh 31 = true := by decide
+
+/-- T8d ABOUT THE EXECUTED OPERATIONS (AUDIT3 Top 6): for every `CurveOk` curve with `p ≡ 3 (mod 4)` and `p < 2n`, any
+    pair serialization `ser`, `hash160`, HMAC — whatever `bms.sign` answers when run over the RAW `Btc.EC.ops C` (the
+    instance the driver executes, environment `⟨ser, h160⟩`) is accepted by `bms.assert_as_valid` run over the RAW
+    `Btc.EC.ops C`, for every address of the key whose type the flag may speak for; the flag is in 27..42, `s` is low,
+    and the key was in `1..n-1`.  No cofactor hypothesis: signing never calls `lift_x` (`bms_sign_run_eq`: the carrier
+    and the raw run of `bms.sign` are EQUAL on every input), and what `assert_as_valid` accepts over the carrier it
+    accepts over the raw pairs (`bms_assertAsValid_run_ok`; the restricted `lift_x` answers only what the executed one
+    answers; the keys serialized are never infinity, where alone the two environments differ). -/
+theorem bms_sign_then_verify_ec_raw {p : ℕ} [Fact p.Prime] {C : Curve} (K : CurveOk p C) (h34 : p % 4 = 3)
+    (hp2n : C.p < 2 * C.n) (ser : Point → Bool → Bytes) (h160 : Bytes → Bytes) (H : Rfc6979.HashSpec) (mm : Bytes)
+    (q : ℤ) (comp : Bool) (addr : Option Bms.Addr) (fuel : ℕ) (rf : ℕ) (r s : ℤ)
+    (h : Bms.sign (EC.ops C) (bmsEnvRaw ser h160) H mm q comp addr fuel = .ok (rf, r, s)) :
+    (∀ t, Bms.accepts t rf = true →
+        Bms.assertAsValid (EC.ops C) (bmsEnvRaw ser h160) (isXCoord C) (Rfc6979.challenge C.n mm)
+          (Bms.addrOf (bmsEnvRaw ser h160) t (ser ((EC.ops C).mul q C.G) comp)) rf r s = .ok ()) ∧
+    (∃ t, Bms.ownType (bmsEnvRaw ser h160) (ser ((EC.ops C).mul q C.G) comp) comp addr = some t ∧
+        Bms.accepts t rf = true) ∧
+    27 ≤ rf ∧ rf ≤ 42 ∧ s ≤ C.n / 2 ∧ (0 < q ∧ q < C.n) :=
+  Btc.E2E.bms_sign_then_verify_ec_raw K h34 hp2n ser h160 H mm q comp addr fuel rf r s h
+
+/-- T8d on secp256k1 about the executed operations `Btc.EC.ops secp256k1`, NOTHING assumed (`CurveOk`, primality,
+    `p ≡ 3 mod 4`, `p < 2n`: kernel evaluation / Pratt certificates) -/
+theorem bms_sign_then_verify_secp256k1
+    (ser : Point → Bool → Bytes) (h160 : Bytes → Bytes) (H : Rfc6979.HashSpec) (mm : Bytes) (q : ℤ) (comp : Bool)
+    (addr : Option Bms.Addr) (fuel : ℕ) (rf : ℕ) (r s : ℤ)
+    (h : Bms.sign (EC.ops secp256k1) (bmsEnvRaw ser h160) H mm q comp addr fuel = .ok (rf, r, s)) :
+    (∀ t, Bms.accepts t rf = true →
+        Bms.assertAsValid (EC.ops secp256k1) (bmsEnvRaw ser h160) (isXCoord secp256k1)
+          (Rfc6979.challenge secp256k1.n mm)
+          (Bms.addrOf (bmsEnvRaw ser h160) t (ser ((EC.ops secp256k1).mul q secp256k1.G) comp)) rf r s = .ok ()) ∧
+    (∃ t, Bms.ownType (bmsEnvRaw ser h160) (ser ((EC.ops secp256k1).mul q secp256k1.G) comp) comp addr = some t ∧
+        Bms.accepts t rf = true) ∧
+    27 ≤ rf ∧ rf ≤ 42 ∧ s ≤ secp256k1.n / 2 ∧ (0 < q ∧ q < secp256k1.n) :=
+  Btc.E2E.bms_sign_then_verify_secp256k1 ser h160 H mm q comp addr fuel rf r s h
+
+/-- the RUN EQUALITY on secp256k1 (cofactor one proved, so the restricted `lift_x` of the carrier IS the executed
+    `lift_x`, `secp_liftAgree_c02`): on EVERY input — any key, address, flag, `(r, s)`, refusals and their classes
+    included — `bms.sign` and `bms.assert_as_valid` run over the lawful carrier `secpOps` answer exactly what they
+    answer run over the raw `Btc.EC.ops secp256k1`.  (`bms.sign`'s half holds on every `CurveOk` curve,
+    `Btc.E2E.bms_sign_run_eq`; `assert_as_valid`'s on every curve with `LiftAgree`, `Btc.E2E.bms_assertAsValid_run_eq`.) -/
+theorem bms_run_eq_secp256k1 (ser : Point → Bool → Bytes) (h160 : Bytes → Bytes) :
+    (∀ (H : Rfc6979.HashSpec) (mm : Bytes) (q : ℤ) (comp : Bool) (addr : Option Bms.Addr) (fuel : ℕ),
+      Bms.sign secpOps (bmsEnvSub ser h160 : Bms.Env SecpPt) H mm q comp addr fuel =
+        Bms.sign (EC.ops secp256k1) (bmsEnvRaw ser h160) H mm q comp addr fuel) ∧
+    (∀ (isX : ℤ → Bool) (c : ℤ) (addr : Bms.Addr) (rf : ℕ) (r s : ℤ),
+      Bms.assertAsValid secpOps (bmsEnvSub ser h160 : Bms.Env SecpPt) isX c addr rf r s =
+        Bms.assertAsValid (EC.ops secp256k1) (bmsEnvRaw ser h160) isX c addr rf r s) :=
+  ⟨fun H mm q comp addr fuel => Btc.E2E.bms_sign_run_eq_secp256k1 ser h160 H mm q comp addr fuel,
+   fun isX c addr rf r s => Btc.E2E.bms_assertAsValid_run_eq_secp256k1 ser h160 isX c addr rf r s⟩
+
+-- non-vacuity, raw arithmetic: on the toy curve (43 ≡ 3 mod 4, 43 < 62, `CurveOk` proved) `bms.sign` run over
+-- `EC.ops toyC` with SEC serialization answers (31, 7, 12) (`toy_bms_sign_raw`, kernel evaluation), hence the EXECUTED
+-- `assert_as_valid` accepts it for the p2pkh, p2wpkh-p2sh and p2wpkh addresses of the key — no hypothesis left
+example : ∀ t, Bms.accepts t 31 = true →
+    Bms.assertAsValid (EC.ops toyC) (bmsEnvRaw (Bms.secSer 1) id) (isXCoord toyC) (Rfc6979.challenge toyC.n [0x1f])
+      (Bms.addrOf (bmsEnvRaw (Bms.secSer 1) id) t (Bms.secSer 1 ((EC.ops toyC).mul 5 toyC.G) true)) 31 7 12 = .ok () :=
+  (bms_sign_then_verify_ec_raw toyOk (by decide) (by decide) (Bms.secSer 1) id ⟨fun _ _ => [0x10], 1⟩ [0x1f] 5 true none 4
+    31 7 12 toy_bms_sign_raw).1
+-- … and evaluated directly by the kernel (the theorem's conclusion is not vacuous, the run is an acceptance)
+example : Bms.assertAsValid (EC.ops toyC) (bmsEnvRaw (Bms.secSer 1) id) (isXCoord toyC) (Rfc6979.challenge toyC.n [0x1f])
+    (Bms.addrOf (bmsEnvRaw (Bms.secSer 1) id) .p2wpkh (Bms.secSer 1 ((EC.ops toyC).mul 5 toyC.G) true)) 31 7 12 = .ok () := by
+  decide +kernel
 
 /-- T2′ with no cofactor hypothesis, any `CurveOk` curve, keys of the `n`-torsion carrier (every key built from `G`):
     the public boolean with the executed x-coordinate screen is the SEC 1 relation -/
